@@ -39,8 +39,8 @@ class Prop(BaseProp):
             "random._urandom / os.urandom wrapped from outside: request sizes and answered bytes logged, incl. answers chosen by the driver "
             "(all-zero, all-ones, top bit only, leading zero bytes); the sentence must decode (Spec, in Coq) to exactly the answered bytes. "
             "Stats: >= N fresh wallets per length: all distinct, every one of the ENT bits takes both values, results unchanged by re-seeding the "
-            "process-wide PRNG to the same state before each call, no output when the OS source is not consulted, bip39.random is a "
-            "random.SystemRandom. Non-trivial = distinct (case, output).")
+            "process-wide PRNG to the same state before each call, no output when the OS source is not consulted or fails, bip39.random is a "
+            "random.SystemRandom -- all of it after a series of failing calls (wrong argument types, illegal sizes, a failing OS source). Non-trivial = distinct (case, output).")
     assumptions = ["CPython 3.12 SystemRandom.getrandbits reads random._urandom(ceil(k/8)) and shifts right by the excess; the kernel CSPRNG itself is trusted"]
 
     def gen_cases(self, rng, tier):
@@ -95,6 +95,21 @@ class Prop(BaseProp):
         bits_vary = True
         reseed_ok = True
         no_other = True
+        # calls that fail (wrong types, illegal sizes) must not change where later entropy comes from
+        for bad in (256.0, 128.0, "128", None, -1, 2 ** 40, 129, True, b"\x80", [128]):
+            for f in (bip39.mnemonic_from_entropy_bits, lambda b: BaseWallet.new_wallet(mnemonic_length=b)):
+                try:
+                    with urandom_spy(lambda k: (_ for _ in ()).throw(OSError("no entropy"))) if bad == 129 else contextlib.nullcontext():
+                        f(bad)
+                except BaseException:
+                    pass
+        try:
+            with urandom_spy(lambda k: (_ for _ in ()).throw(OSError("no entropy"))):
+                bip39.mnemonic_from_entropy_bits(128)                 # the OS source failing once
+            no_other = False                                          # ... must not yield a sentence
+        except BaseException:
+            pass
+        ok_bound = ok_bound and type(bip39.random) is _random.SystemRandom
         for words, ent in BITS.items():
             seen = set()
             ones = 0
